@@ -247,17 +247,26 @@ func verifLaws(path string, obs interface{}, obsP bool, last interface{}, lastP 
 	}
 }
 
-func verifC05Shape() gen.Shape {
-	if rt.Tier() == 0 {
-		return gen.Shape{Depth: 1, Keys: []string{"a"}, Nulls: true, Ints: true, Lists: 1, ListMaps: 1, MergeKeys: []string{"name", ""}}
-	}
-	return gen.Shape{Depth: 1, Keys: []string{"a", "b"}, Nulls: true, Ints: true, Bools: true, Lists: 2, ListMaps: 2, MergeKeys: []string{"name", "port", ""}}
+// VerifC05_Merge: every (observed, lastApplied, desired) triple of the bounded
+// universe through the real Merge.  Quick universe: one key, all value kinds.
+func VerifC05_Merge() {
+	verifC05(gen.Shape{Depth: 1, Keys: []string{"a"}, Nulls: true, Ints: true, Lists: 1, ListMaps: 1, MergeKeys: []string{"name", ""}})
 }
 
-// VerifC05_Merge: every (observed, lastApplied, desired) triple of the bounded
-// universe through the real Merge.
-func VerifC05_Merge() {
-	sh := verifC05Shape()
+// Thorough universes (each explored exhaustively).
+func VerifC05_Merge_TwoKeys() {
+	verifC05(gen.Shape{Depth: 1, Keys: []string{"a", "b"}, SubKeys: []string{"c"}, Nulls: true})
+}
+
+func VerifC05_Merge_Lists() {
+	verifC05(gen.Shape{Depth: 1, Keys: []string{"a"}, Nulls: true, Lists: 1, ListMaps: 2, MergeKeys: []string{"name", "port"}})
+}
+
+func VerifC05_Merge_Deep() {
+	verifC05(gen.Shape{Depth: 2, Keys: []string{"a"}, Nulls: true, Ints: true, Bools: true, Lists: 1})
+}
+
+func verifC05(sh gen.Shape) {
 	top := sh
 	top.Depth = sh.Depth + 1
 	obs := gen.Map("o", top)
